@@ -83,3 +83,9 @@ scoped notation "pAnd" => And
 scoped notation "pOr" => Or
 
 end VR
+
+-- scalar / truth-value types of the third generated copy (`Gen/Sym`: the functions as SympyLib evaluates them)
+namespace VS
+abbrev S := ℝ
+abbrev B (_ : Type) : Type := Prop
+end VS
